@@ -742,6 +742,17 @@ class Interp:
                 if zd is not None and zd == v.shape[axis] and hi.kind == "none" and step.kind == "none" and lod is not None and all(ax == axis or db == dv for ax, (db, dv) in enumerate(zip(base.shape, v.shape))) and base.shape[axis] == lod + v.shape[axis]:
                     return T("stack", *bt.args[:-1], v.term)
             return None
+        if base.kind == "arr" and base.shape is not None and len(base.shape) >= 2 and base.shape[0].is_const() and 0 < base.shape[0].c <= 8 and idx.has_const and isinstance(idx.const, int) and not isinstance(idx.const, bool) and 0 <= idx.const < base.shape[0].c and v.kind == "arr" and v.shape is not None and tuple(v.shape) == tuple(base.shape[1:]):
+            # Z = zeros((n, ...)) of fixed small height; Z[k] = row : the list of its rows
+            n_ = int(base.shape[0].c)
+            rows = None
+            if bt.op == "zeros":
+                rows = [T("zeros", *[self.api.dim_term(d) for d in base.shape[1:]])] * n_
+            elif bt.op == "list" and len(bt.args) == n_:
+                rows = list(bt.args)
+            if rows is not None:
+                rows[idx.const] = v.term
+                return T("list", *rows)
         if base.kind != "arr" or base.shape is None or bt.op != "zeros" or v.kind != "arr" or v.shape is None:
             return None
         items = idx.items if idx.kind == "tuple" and idx.items is not None else [idx]
@@ -1552,7 +1563,12 @@ class Interp:
             vt = _vectorise(elt.term, T("getitem", it.term, T("lv", lid)), it.term, T("lv", lid))
             if vt is not None:
                 return V("list", vt, items=None, labels=it.labels | elt.labels, orig=frozenset([FRESH]), extra=("comp", elt, tuple(it.shape)), loc=fresh_id())
-        term = T("comp", lid, it.term, elt.term, *cond_terms)
+        it_term = it.term
+        if n is not None and n.known() and it.kind in ("arr", "list", "enumerate", "zip") and elt.kind == "arr" and elt.shape is not None and len(elt.shape) >= 1:
+            # elements are read through the position lv(L): the iterable matters only by its length
+            it_term = T("range", self.api.dim_term(Dim(0)), self.api.dim_term(n))
+            self.vtab.setdefault(elt.term, elt)
+        term = T("comp", lid, it_term, elt.term, *cond_terms)
         n_items = self.api.length_dim(self, it) if not cond_terms else None
         shape = None
         if elt.shape is not None:
@@ -1639,6 +1655,17 @@ class Interp:
         if loops.mentions_head(e, lid) or loops.mentions_head(idx, lid):
             return None
         esh = self.term_shape(e)
+        if esh is not None and len(esh) >= 1 and idx == lvt and len(init.shape) == len(esh) + 1 and init.shape[0] == n and tuple(init.shape[1:]) == tuple(esh):
+            # out[j] = row(j) for every j: the rows [row(j) for j in range(n)]
+            ev = self.vtab.get(e)
+            if ev is not None:
+                cid = "C" + lid[1:]
+                m = {lvt: T("lv", cid)}
+                comp = self._mk_comp(it, cid, ev.replace(term=subst_term(e, m)), [])
+                if self.api.shape_of(comp) is not None:
+                    carr = self.api.as_arr(comp)
+                    return init.replace(term=carr.term, labels=init.labels | body_v.labels, has_const=False, const_=None, items=None)
+            return None
         if esh is None or not all(d.is_const() and d.c == 1 for d in esh):
             return None
         vt = loops.vectorise(e, lvt, n, self.term_shape, self.api.dim_term)
